@@ -8,6 +8,7 @@ from gen import trxd_proto
 ID = "C16"
 LEVEL = "proof"
 LEAN_MODULES = ["OsmoVerif.Props.C16"]
+DRIVER_MODULES = ["Codec"]
 LEAN_MODEL_MODULES = ["OsmoVerif.Model.Codec", "OsmoVerif.Spec.Codec", "OsmoVerif.Lemmas.CodecInt",
                       "OsmoVerif.Lemmas.CodecVals", "OsmoVerif.Lemmas.CodecBits", "OsmoVerif.Lemmas.CodecRT",
                       "OsmoVerif.Lemmas.CodecDI", "OsmoVerif.Lemmas.CodecErr", "OsmoVerif.Lemmas.CodecTyped", "OsmoVerif.Lemmas.CodecExact"]
